@@ -2,8 +2,8 @@
 import json, shutil, sys
 from pathlib import Path
 
-def main(pid, seed_id, detected, confirm_line):
-    wt = Path(f"/tmp/seed_{pid}")
+def main(pid, seed_id, detected, confirm_line, wt=None):
+    wt = Path(wt or f"/tmp/seed_{pid}")
     dst = Path("/verif/seeded") / seed_id
     dst.mkdir(parents=True, exist_ok=True)
     shutil.copy(wt / "seed" / "patch.diff", dst / "patch.diff")
@@ -18,4 +18,4 @@ def main(pid, seed_id, detected, confirm_line):
     print("saved", dst)
 
 if __name__ == "__main__":
-    main(*sys.argv[1:5])
+    main(*sys.argv[1:6])
